@@ -794,3 +794,161 @@ def subst_upvars(prog, ckey, e, depth=0):
     if prog.fns[pb.key].get("kind") == "Closure":
         out = subst_upvars(prog, pb.key, out, depth + 1)
     return out
+
+
+# ---------------------------------------------------------------------------
+# finite evaluation of extracted scalar predicates (decision tables over a finite character domain)
+
+class PredEval:
+    """Evaluates a small pure `fn(char | &char [, …]) -> bool|char|Option<..>` from its MIR over concrete
+    scalar arguments.  Only copies, refs of scalars, comparisons, bool ops, constant switches,
+    `literal.contains(char)` and calls of other such local functions are understood; anything else
+    yields None (undecidable).  This is a table evaluation of an extracted predicate, used to read the
+    character classes as *sets* whatever their spelling (string literal, matches!, ranges, == chains)."""
+
+    def __init__(self, prog):
+        self.prog = prog
+        self.memo = {}
+
+    def call(self, key, args, depth=0):
+        mk = (key, tuple(args))
+        if mk in self.memo:
+            return self.memo[mk]
+        if depth > 8 or key not in self.prog.fns:
+            return None
+        b = self.prog.body(key)
+        env = {}
+        for i, a in enumerate(args):
+            env[i + 1] = a
+        bb = 0
+        steps = 0
+        res = None
+        while steps < 4000:
+            steps += 1
+            blk = b.blocks[bb]
+            ok = True
+            for s in blk["stmts"]:
+                if s["k"] != "assign":
+                    continue
+                v = self._rv(b, s["rv"], env)
+                if v is None:
+                    ok = False
+                    break
+                if s["place"]["p"]:
+                    ok = False
+                    break
+                env[s["place"]["l"]] = v
+            if not ok:
+                res = None
+                break
+            t = blk["term"]
+            k = t["k"]
+            if k == "return":
+                res = env.get(0)
+                break
+            if k == "goto":
+                bb = t["target"]
+                continue
+            if k == "switch":
+                d = self._op(b, t["discr"], env)
+                if d is None or isinstance(d, tuple):
+                    res = None
+                    break
+                d = int(d)
+                nxt = t["otherwise"]
+                for v, tb in t["targets"]:
+                    if v == d:
+                        nxt = tb
+                bb = nxt
+                continue
+            if k == "call":
+                name = callee_name(t)
+                av = [self._op(b, a, env) for a in t["args"]]
+                r = None
+                if name.endswith("str>::contains") and len(av) == 2 and isinstance(av[0], tuple) and av[0][0] == "str" and isinstance(av[1], int):
+                    r = chr(av[1]) in av[0][1]
+                elif name in self.prog.fns and all(a is not None for a in av):
+                    r = self.call(name, av, depth + 1)
+                elif (name.endswith("::eq") or name.endswith("::ne")) and len(av) == 2 and all(isinstance(a, (int, bool)) for a in av):
+                    r = (av[0] == av[1]) if name.endswith("::eq") else (av[0] != av[1])
+                if r is None or t.get("target") is None or t["dest"]["p"]:
+                    res = None
+                    break
+                env[t["dest"]["l"]] = r
+                bb = t["target"]
+                continue
+            res = None
+            break
+        self.memo[mk] = res
+        return res
+
+    def _op(self, b, op, env):
+        if op["k"] == "const":
+            if "cp" in op:
+                return op["cp"]
+            if "bool" in op:
+                return bool(op["bool"])
+            if "int" in op:
+                return op["int"]
+            if "str" in op:
+                return ("str", op["str"])
+            return None
+        p = op["place"]
+        v = env.get(p["l"])
+        for el in p["p"]:
+            if el == "*":
+                continue            # refs of scalars are modelled by value
+            return None
+        return v
+
+    def _rv(self, b, rv, env):
+        k = rv["k"]
+        if k == "use":
+            return self._op(b, rv["op"], env)
+        if k == "ref":
+            p = rv["place"]
+            if any(el != "*" for el in p["p"]):
+                return None
+            return env.get(p["l"])
+        if k == "binop":
+            l, r = self._op(b, rv["l"], env), self._op(b, rv["r"], env)
+            if l is None or r is None or isinstance(l, tuple) or isinstance(r, tuple):
+                return None
+            op = rv["op"]
+            if op == "Eq":
+                return l == r
+            if op == "Ne":
+                return l != r
+            if op == "Lt":
+                return l < r
+            if op == "Le":
+                return l <= r
+            if op == "Gt":
+                return l > r
+            if op == "Ge":
+                return l >= r
+            if op == "BitAnd":
+                return (l and r) if isinstance(l, bool) else (l & r)
+            if op == "BitOr":
+                return (l or r) if isinstance(l, bool) else (l | r)
+            return None
+        if k == "unop" and rv["op"] == "Not":
+            x = self._op(b, rv["x"], env)
+            return None if x is None else (not x)
+        if k == "cast":
+            return self._op(b, rv["op"], env)
+        return None
+
+    def char_set(self, key, domain):
+        """{chars c in domain with key(c) == True}; None if any evaluation is undecidable."""
+        out = set()
+        for c in domain:
+            r = self.call(key, [ord(c)])
+            if r is None:
+                return None
+            if r is True:
+                out.add(c)
+        return out
+
+
+BENGALI_DOMAIN = [chr(c) for c in range(0x0980, 0x0A00)] + ["‌", "‍", "a", "Z", "0", " ", ".", "।", "॥"]
